@@ -39,7 +39,25 @@ RULE = ("random discrete Bayesian networks (1-6 nodes; chains, forks, colliders,
         "4000 real-RNG rows on decimal-rounded networks, a state whose CPD entry is exactly 0 never appears.  CHI2 kind = SUPPORTING TEST ONLY: chi-square goodness of fit of forward_sample(4000) to the "
         "exact joint at alpha = 1e-6 (a statistical test, not a proof; listed separately in tags).  A case is "
         "non-trivial when >= 1 node has a parent and >= 1 oracle draw / table entry was compared; distinct = distinct "
-        "(kind, network, options) after canonicalisation")
+        "(kind, network, options) after canonicalisation.  GENERALISATION CLASSES: A sessions = kind session (6 calls on one "
+        "sampler + simulate, then replace_cpd / remove_edge+add_cpds / remove_node / do(inplace) / add_node on the same model "
+        "object, new sampler + simulate compared with the model on the state read back from the object) and the continued "
+        "Gibbs chain (second sample() without start_state); B purity = evidence lists, do/evidence dicts, virtual CPD lists and "
+        "values, partial_samples frames, start_state lists and the model itself are compared with snapshots after every oracle "
+        "call; C = a scribbled-over result does not influence the next call, CPDs built from reused float64 ndarray buffers "
+        "that are overwritten afterwards; D = partial_samples with shifted / permuted / gapped / duplicate / string index, "
+        "shuffled columns, int8/int32/int64, returned frames must carry index 0..size-1, log_probability frames with permuted "
+        "columns and a gapped index (categorical INPUT does not apply: partial_samples holds state numbers); E = node names that "
+        "are substrings of one another, collide with simulate's '__'+name children ('__x1', '___x1'), attribute-like names "
+        "('size', 'index'), mixed int/str names that do not sort (tuple node names do not apply: they are data-frame columns); "
+        "F = permuted / arbitrary / 1-based ints, booleans, same names across variables, a child CPD listing a parent's names "
+        "in another order must be rejected by simulate; G = kind big (9 variables in one CPD, int names up to 11), "
+        "cardinality 1, single-node and edgeless nets, empty evidence, seed=0 must seed; H = tiny / decimal kinds, Markov "
+        "factors scaled by 1e-90..1e90, all comparisons relative; I = the oracle kinds also under the torch backend; J = "
+        "include_latents, partial_samples, show_progress default, virtual_intervention, include_missing / missing_columns, "
+        "generate_sample (n_jobs is accepted and ignored by the code); K = kind badcall (later invalid argument, unknown "
+        "states / variables / cardinalities -> ValueError / KeyError = model error 6, model unchanged, valid call afterwards); "
+        "L = node / edge / CPD insertion orders, parent order in the CPD, evidence order, hash seeds; M is tools/check.py")
 TRUSTED_BASE = ["numpy.random.choice(a, size, p) draws independent indices with law p (coq/C07/Dist.v `draw`); the "
                 "Mersenne-Twister / seeding of numpy is not modelled",
                 "pandas DataFrame column assignment, boolean filtering, concat/iloc, Series.map; numpy unique/vstack",
@@ -63,9 +81,43 @@ def dec_name(t):
         return v
     if k == "i":
         return int(v)
+    if k == "b":
+        return bool(v)
     if k == "t":
         return tuple(dec_name(x) for x in v)
     raise ValueError(t)
+
+
+def enc_name(x):
+    if isinstance(x, bool) or type(x).__name__ == "bool_":
+        return ["b", bool(x)]
+    if isinstance(x, str):
+        return ["s", str(x)]
+    if isinstance(x, tuple):
+        return ["t", [enc_name(y) for y in x]]
+    if hasattr(x, "__index__"):
+        return ["i", int(x)]
+    raise ValueError(x)
+
+
+def net_from_model(model):
+    """the CURRENT state of a pgmpy BayesianNetwork as a net description (what a freshly built object would hold)"""
+    import numpy as np
+
+    nodes = list(model.nodes())
+    idx = {x: i for i, x in enumerate(nodes)}
+    card, names, vals, pars = [None] * len(nodes), [None] * len(nodes), [None] * len(nodes), {}
+    for c in model.cpds:
+        v = idx[c.variable]
+        card[v] = int(c.variable_card)
+        names[v] = [enc_name(x) for x in c.state_names[c.variable]]
+        pars[str(v)] = [idx[x] for x in c.variables[1:]]
+        tab = np.array(c.get_values(), dtype=float).reshape(card[v], -1)
+        vals[v] = [[Fraction(float(x)).numerator, Fraction(float(x)).denominator] for row in tab for x in row]
+    return {"nodes": [enc_name(x) for x in nodes], "node_order": list(range(len(nodes))),
+            "edges": [[idx[u], idx[w]] for u, w in model.edges()],
+            "cpd_order": [idx[c.variable] for c in model.cpds], "pars": pars, "card": card, "names": names,
+            "vals": vals, "lat": sorted(idx[x] for x in model.latents), "buf": False}
 
 
 def intern_names(names):
@@ -105,6 +157,12 @@ def gen_names(rng, card, style):
         return [["i", i] for i in p]
     if style == "anyint":
         return [["i", i] for i in rng.sample(range(0, card + 3), card)]
+    if style == "onebased":
+        return [["i", i + 1] for i in range(card)]
+    if style == "bool":
+        if card > 2:
+            return [["i", i + 1] for i in range(card)]
+        return ([["b", False], ["b", True]] if rng.random() < 0.5 else [["b", True], ["b", False]])[:card]
     if style == "tuple":
         return [["t", [["s", "t"], ["i", i]]] for i in range(card)]
     # mixed
@@ -177,7 +235,7 @@ def gen_net(rng, nmax=6, styles=None, zeros=True, maxcard=4, min_edges=0, str_no
     rng.shuffle(edges)
     card = [rng.choice([1, 2, 2, 2, 3, 3, 4][: (3 + maxcard)]) for _ in ids]
     card = [min(c, maxcard) for c in card]
-    styles = styles or ["str", "int", "perm", "anyint", "tuple", "mixed"]
+    styles = styles or ["str", "int", "perm", "anyint", "tuple", "mixed", "onebased", "bool"]
     netstyle = rng.choice(styles + ["each"])
     names = []
     for v in ids:
@@ -206,12 +264,22 @@ def gen_net(rng, nmax=6, styles=None, zeros=True, maxcard=4, min_edges=0, str_no
             cols.append(col)
         flat = [cols[j][s] for s in range(card[v]) for j in range(ncol)]
         vals.append([[x.numerator, x.denominator] for x in flat])
-    if str_nodes or rng.random() < 0.7:
+    r = rng.random()
+    if r < 0.45:
         pool = ["A", "B", "C", "D", "E", "F", "G", "H"]
         rng.shuffle(pool)
         nodes = [["s", x] for x in pool[:n]]
-    else:
+    elif r < 0.75 or str_nodes:
+        # names that are substrings of one another, that collide with simulate's "__" + name children, keywords
+        pool = ["x1", "x10", "x", "x11", "G", "G2", "__G", "__x1", "___x1", "_", "weight", "index", "size", "0", "1 "]
+        rng.shuffle(pool)
+        nodes = [["s", x] for x in pool[:n]]
+    elif r < 0.9:
         nodes = [["i", x] for x in rng.sample(range(0, n + 3), n)]
+    else:
+        pool = [["s", "a"], ["i", 0], ["s", "b"], ["i", 7], ["s", "__0"], ["i", 10], ["s", "x"], ["i", 3]]   # do not sort
+        rng.shuffle(pool)
+        nodes = pool[:n]
     node_order = ids[:]
     rng.shuffle(node_order)
     cpd_order = ids[:]
@@ -219,7 +287,41 @@ def gen_net(rng, nmax=6, styles=None, zeros=True, maxcard=4, min_edges=0, str_no
     k = rng.choice([0, 0, 1, 1, 2])
     lat = sorted(rng.sample(ids, min(k, n - 1))) if n >= 2 else []
     return {"nodes": nodes, "node_order": node_order, "edges": edges, "cpd_order": cpd_order, "pars": pars,
-            "card": card, "names": names, "vals": vals, "lat": lat}
+            "card": card, "names": names, "vals": vals, "lat": lat, "buf": rng.random() < 0.3}
+
+
+def gen_big_net(rng):
+    """one child with 8 binary parents: 9 variables in one CPD / factor; integer node names 0..9 (a set of small ints
+    iterates in increasing order only below 8), plus one extra child of two of the parents"""
+    labels = rng.sample(range(0, 12), 10)
+    nodes = [["i", x] for x in labels]
+    child, extra = 8, 9
+    parents = list(range(8))
+    edges = [[u, child] for u in parents] + [[parents[0], extra], [parents[5], extra]]
+    rng.shuffle(edges)
+    card = [2] * 10
+    card[rng.randrange(8)] = 1
+    card[extra] = 3
+    pars = {str(v): [] for v in range(10)}
+    pp = parents[:]
+    rng.shuffle(pp)
+    pars[str(child)] = pp
+    pars[str(extra)] = rng.sample([parents[0], parents[5]], 2)
+    names = [gen_names(rng, card[v], rng.choice(["int", "str", "perm"])) for v in range(10)]
+    vals = []
+    for v in range(10):
+        ncol = 1
+        for u in pars[str(v)]:
+            ncol *= card[u]
+        cols = [common.rand_column(rng, card[v], zeros=True) for _ in range(ncol)]
+        flat = [cols[j][s_] for s_ in range(card[v]) for j in range(ncol)]
+        vals.append([[x.numerator, x.denominator] for x in flat])
+    order = list(range(10))
+    rng.shuffle(order)
+    corder = list(range(10))
+    rng.shuffle(corder)
+    return {"nodes": nodes, "node_order": order, "edges": edges, "cpd_order": corder, "pars": pars, "card": card,
+            "names": names, "vals": vals, "lat": [], "buf": False}
 
 
 def gen_tiny_net(rng):
@@ -281,6 +383,7 @@ def cases(tier, seed):
     mult = 1 if tier == "quick" else 8
     out.append({"kind": "d16", "net": D16_NET, "oseed": 1})
     out.append({"kind": "do_zero"})
+    out.append({"kind": "gibbs_seed"})
     good = ["str", "int", "tuple", "anyint"]
 
     def opt(kind, **kw):
@@ -293,6 +396,7 @@ def cases(tier, seed):
         c["size"] = rng.choice([1, 2, 3, 5, 8, 13, 30])
         c["incl"] = rng.random() < 0.5
         c["partial"] = rng.random() < 0.3
+        c["defaults"] = rng.random() < 0.25      # show_progress left at its default
         out.append(c)
     # decimal-rounded CPD columns (sum != 1 by up to +-1e-3): _adjusted_weights is NOT the identity
     for _ in range(90 * mult):
@@ -312,12 +416,30 @@ def cases(tier, seed):
             c["nev"] = rng.choice([0, 1, 1, 2])
             c["ndo"] = rng.choice([0, 1])
             c["nvirt"] = rng.choice([0, 0, 1])
+            c["nvint"] = rng.choice([0, 0, 1])
             c["dec"] = True
             out.append(c)
     for _ in range(16 * mult):
         c = opt("struct_dec", nmax=4, min_edges=0, dec=True, str_nodes=True)
         c["seed"] = rng.randint(0, 10**6)
         out.append(c)
+    # sessions on one object (class A), rejected calls (K), >= 9 variables in one factor (G), torch backend (I)
+    for _ in range(30 * mult):
+        c = opt("session", nmax=5, min_edges=1)
+        c["edit"] = rng.choice(["replace_cpd", "remove_edge", "remove_node", "do_inplace", "add_node"])
+        out.append(c)
+    for _ in range(16 * mult):
+        c = opt("badcall", nmax=4, min_edges=1, str_nodes=True)
+        out.append(c)
+    for _ in range(3 * mult):
+        out.append({"kind": "big", "net": gen_big_net(rng), "oseed": rng.randint(0, 10**9)})
+    for k_ in ("forward", "reject", "lw", "simulate", "gibbs"):
+        for _ in range(8 * mult):
+            c = opt(k_, nmax=4, min_edges=1, str_nodes=True, maxcard=3)
+            c.update({"size": rng.choice([1, 3, 7]), "incl": rng.random() < 0.5, "partial": rng.random() < 0.3,
+                      "nev": rng.choice([0, 1, 2]), "ndo": rng.choice([0, 1]), "nvirt": rng.choice([0, 1]),
+                      "nvint": rng.choice([0, 1]), "backend": "torch"})
+            out.append(c)
     # near-identical but distinct CPD columns (differences 1e-9..1e-12): weights / log-probabilities compared relatively
     for _ in range(60 * mult):
         net, target = gen_tiny_net(rng)
@@ -350,12 +472,13 @@ def cases(tier, seed):
         c["ndo"] = rng.choice([0, 1, 1, 2])
         c["nev"] = rng.choice([0, 0, 1, 2])
         c["nvirt"] = rng.choice([0, 0, 1, 1, 2])
+        c["nvint"] = rng.choice([0, 0, 1, 1, 2])
         c["partial"] = rng.random() < 0.15
         out.append(c)
     for _ in range(60 * mult):
         c = opt("struct", str_nodes=True, min_edges=1)
         c["size"] = rng.choice([1, 5, 40, 200])
-        c["seed"] = rng.randint(0, 10**6)
+        c["seed"] = rng.choice([0, 0, 1, rng.randint(0, 10**6), rng.randint(0, 10**6)])
         c["nev"] = rng.choice([1, 1, 2])
         out.append(c)
     for _ in range(12 * mult):
@@ -427,9 +550,16 @@ class Net:
         m.add_nodes_from([self.node[v] for v in net["node_order"]])
         m.add_edges_from([(self.node[u], self.node[v]) for u, v in net["edges"]])
         cpds = []
+        bufs = []
         for v in net["cpd_order"]:
             nc = self.ncol(v)
             table = [[float(self.vals[v][s * nc + j]) for j in range(nc)] for s in range(self.card[v])]
+            if net.get("buf"):
+                # C-contiguous float64 ndarray, overwritten after construction: the CPD must not alias it
+                import numpy as np
+
+                table = np.ascontiguousarray(np.array(table, dtype=np.float64))
+                bufs.append(table)
             sn = {self.node[v]: list(self.names[v])}
             for u in self.pars[v]:
                 sn[self.node[u]] = list(self.names[u])
@@ -440,6 +570,8 @@ class Net:
                 c = TabularCPD(self.node[v], self.card[v], table, state_names=sn)
             cpds.append(c)
         m.add_cpds(*cpds)
+        for b_ in bufs:
+            b_[...] = 0.123
         return m
 
     def sx(self, model):
@@ -459,6 +591,10 @@ class Net:
         if isinstance(x, float) and x != x:
             return None
         for j, nm in enumerate(self.names[v]):
+            if isinstance(nm, bool):
+                if type(x).__name__ in ("bool", "bool_", "bool") and bool(x) == nm:
+                    return self.znames[v][j]
+                continue
             if type(nm) is type(x) and nm == x:
                 return self.znames[v][j]
             if isinstance(nm, int) and not isinstance(nm, bool) and hasattr(x, "__index__") and int(x) == nm \
@@ -672,10 +808,50 @@ def gen_partial(N, rng, size, avoid=()):
     return [[v, [rng.randrange(N.card[v]) for _ in range(size)]] for v in cols]
 
 
-def partial_df(N, partial):
+def partial_df(N, partial, rng=None):
+    """partial_samples frame; with rng: shuffled column order, an index that is not 0..n-1 (shifted / permuted / gapped /
+    duplicate / string labels) and other integer dtypes - the index is never data, only positions count"""
+    import numpy as np
     import pandas as pd
 
-    return pd.DataFrame({N.node[v]: col for v, col in partial})
+    items = [(N.node[v], col) for v, col in partial]
+    if rng is None:
+        return pd.DataFrame(dict(items))
+    rng.shuffle(items)
+    n = len(items[0][1]) if items else 0
+    kind = rng.choice(["range", "shift", "perm", "gap", "dup", "str"])
+    if kind == "range":
+        idx = None
+    elif kind == "shift":
+        idx = list(range(5, 5 + n))
+    elif kind == "perm":
+        idx = list(range(n))
+        rng.shuffle(idx)
+    elif kind == "gap":
+        idx = [3 * i + 1 for i in range(n)]
+    elif kind == "dup":
+        idx = [i // 2 for i in range(n)]
+    else:
+        idx = ["r%d" % (n - i) for i in range(n)]
+    dt = rng.choice([np.int64, np.int32, np.int8])
+    df = pd.DataFrame({k: np.array(col, dtype=dt) for k, col in items}, index=idx)
+    return df
+
+
+def frame_index_ok(df, size):
+    """returned frames carry the plain positional index 0..size-1"""
+    return list(df.index) == list(range(size))
+
+
+def snapshot_df(df):
+    return None if df is None else (df.copy(deep=True), list(df.index), list(df.columns), [str(t) for t in df.dtypes])
+
+
+def df_unchanged(df, snap):
+    if df is None:
+        return True
+    c, idx, cols, dts = snap
+    return list(df.index) == idx and list(df.columns) == cols and [str(t) for t in df.dtypes] == dts and df.equals(c)
 
 
 # ------------------------------------------------------------------ case runners
@@ -685,9 +861,23 @@ def run_case(case, drv):
         return run_gibbs_mn(case, drv)
     if kind == "do_zero":
         return run_do_zero(case)
+    if kind == "gibbs_seed":
+        return run_gibbs_seed(case)
     N = Net(case["net"])
     key = common.canon_key(case)
-    tags = ["kind=" + kind] + net_tags(N)
+    tags = ["kind=" + kind, "backend=" + case.get("backend", "numpy")] + net_tags(N)
+    if case.get("backend") == "torch":
+        from pgmpy import config
+
+        config.set_backend("torch")
+        try:
+            return run_case_(case, drv, N, key, tags, kind)
+        finally:
+            config.set_backend("numpy")
+    return run_case_(case, drv, N, key, tags, kind)
+
+
+def run_case_(case, drv, N, key, tags, kind):
     model = N.build()
     try:
         return run_kind(case, drv, N, model, key, tags, kind)
@@ -718,25 +908,35 @@ def run_kind(case, drv, N, model, key, tags, kind):
         return run_chi2(case, N, model, key, tags)
     if kind == "struct_dec":
         return run_struct_dec(case, N, model, key, tags)
+    if kind == "session":
+        return run_session(case, drv, N, model, key, tags)
+    if kind == "badcall":
+        return run_badcall(case, drv, N, model, key, tags)
+    if kind == "big":
+        return run_big(case, drv, N, model, key, tags)
     raise ValueError(kind)
 
 
-def run_forward(case, drv, N, model, key, tags):
+def run_forward(case, drv, N, model, key, tags, sampler=None):
     from pgmpy.sampling import BayesianModelSampling
 
     rng = random.Random(case["oseed"])
     size = case.get("size", 6)
     incl = case.get("incl", True)
     partial = gen_partial(N, rng, size) if case.get("partial") else []
-    s = BayesianModelSampling(model)
+    s = sampler or BayesianModelSampling(model)
     order = [N.id[x] for x in s.topological_order]
     impl_err = None
+    pdf = partial_df(N, partial, rng) if partial else None
+    psnap = snapshot_df(pdf)
+    kw = {} if case.get("defaults") else {"show_progress": False}
     with oracle(case["oseed"]) as o:
         try:
-            df = s.forward_sample(size=size, include_latents=incl, show_progress=False,
-                                  partial_samples=partial_df(N, partial) if partial else None)
+            df = s.forward_sample(size=size, include_latents=incl, partial_samples=pdf, **kw)
         except ValueError as e:
             impl_err = str(e)[:80]
+    if not df_unchanged(pdf, psnap):
+        return bad("mutated-argument", {"what": "forward_sample changed partial_samples", "case": case}, key=key, tags=tags)
     tags += ["size=%d" % size, "incl=%s" % incl, "partial=%d" % len(partial), "calls=%d" % len(o.calls),
              "dec=%s" % bool(case.get("dec"))]
     st, r = drv.call_e("c07_forward", [N.sx(model), order, size, incl, partial, o.draws() + ([0] * 64 if impl_err else [])])
@@ -754,8 +954,8 @@ def run_forward(case, drv, N, model, key, tags):
         d = "draws consumed: impl %d, model %d" % (len(o.draws()), consumed)
     if d is None:
         d = cmp_frames(N.frame(df), model_frame(cols, rows))
-    if d is None and len(df) != size:
-        d = "rows: %d, requested %d" % (len(df), size)
+    if d is None and (len(df) != size or not frame_index_ok(df, size)):
+        d = "rows: %d, requested %d, index %r" % (len(df), size, list(df.index)[:10])
     if d is not None:
         return bad("impl!=model", {"what": d, "case": case}, key=key, tags=tags)
     sp = spec_weight_maps(N, model)
@@ -776,7 +976,7 @@ def knife_edge(sizes_impl, sizes_model):
     return len(sizes_impl) >= 1 and len(sizes_model) >= 1 and sizes_impl != sizes_model
 
 
-def run_reject(case, drv, N, model, key, tags):
+def run_reject(case, drv, N, model, key, tags, sampler=None):
     from pgmpy.sampling import BayesianModelSampling
     from pgmpy.factors.discrete import State
 
@@ -785,9 +985,12 @@ def run_reject(case, drv, N, model, key, tags):
     asg, evn = pick_evidence(N, rng, case["nev"])
     psize = rng.choice([size, size + 3, 2 * size + 1])
     partial = gen_partial(N, rng, psize, avoid=[v for v, _ in evn]) if case.get("partial") else []
-    s = BayesianModelSampling(model)
+    s = sampler or BayesianModelSampling(model)
     order = [N.id[x] for x in s.topological_order]
     ev = [State(N.node[v], N.names[v][k]) for v, k in evn]
+    evsnap = list(ev)
+    pdf = partial_df(N, partial, rng) if partial else None
+    psnap = snapshot_df(pdf)
     sizes = []
     orig = s.forward_sample
 
@@ -799,9 +1002,14 @@ def run_reject(case, drv, N, model, key, tags):
     try:
         with oracle(case["oseed"]) as o:
             df = s.rejection_sample(evidence=ev, size=size, include_latents=incl, show_progress=False,
-                                    partial_samples=partial_df(N, partial) if partial else None)
+                                    partial_samples=pdf)
     except OracleLimit:
         return ok(nontrivial=False, key=key, tags=tags + ["oracle-limit"])
+    finally:
+        del s.forward_sample
+    if ev != evsnap or not df_unchanged(pdf, psnap):
+        return bad("mutated-argument", {"what": "rejection_sample changed evidence / partial_samples", "case": case},
+                   key=key, tags=tags)
     tags += ["size=%d" % size, "incl=%s" % incl, "partial=%d" % len(partial), "nev=%d" % len(evn),
              "batches=%d" % len(sizes)]
     zev = [[v, N.znames[v][k]] for v, k in evn]
@@ -824,8 +1032,8 @@ def run_reject(case, drv, N, model, key, tags):
         return ok(nontrivial=False, key=key, tags=tags + ["float-sort-knife-edge"])
     if d is None:
         d = cmp_frames(N.frame(df), model_frame(cols, rows))
-    if d is None and len(df) != size:
-        d = "rows: %d, requested %d" % (len(df), size)
+    if d is None and (len(df) != size or not frame_index_ok(df, size)):
+        d = "rows: %d, requested %d, index %r" % (len(df), size, list(df.index)[:10])
     if d is None:
         f = N.frame(df)
         for v, z in zev:
@@ -840,7 +1048,7 @@ def run_reject(case, drv, N, model, key, tags):
     return ok(nontrivial=bool(N.net["edges"]) and len(o.calls) > 0 and len(evn) > 0, key=key, tags=tags)
 
 
-def run_lw(case, drv, N, model, key, tags):
+def run_lw(case, drv, N, model, key, tags, sampler=None):
     from pgmpy.sampling import BayesianModelSampling
     from pgmpy.factors.discrete import State
 
@@ -849,11 +1057,15 @@ def run_lw(case, drv, N, model, key, tags):
     asg, evn = pick_evidence(N, rng, case["nev"])
     if case.get("force_ev"):
         evn = [list(x) for x in case["force_ev"]]
-    s = BayesianModelSampling(model)
+    s = sampler or BayesianModelSampling(model)
     order = [N.id[x] for x in s.topological_order]
     ev = [State(N.node[v], N.names[v][k]) for v, k in evn]
+    evsnap = list(ev)
     with oracle(case["oseed"]) as o:
         df = s.likelihood_weighted_sample(evidence=ev, size=size, include_latents=incl, show_progress=False)
+    if ev != evsnap:
+        return bad("mutated-argument", {"what": "likelihood_weighted_sample changed the evidence list", "case": case},
+                   key=key, tags=tags)
     tags += ["size=%d" % size, "incl=%s" % incl, "nev=%d" % len(evn), "calls=%d" % len(o.calls)]
     zev = [[v, N.znames[v][k]] for v, k in evn]
     cols, rows, mw, mcalls, consumed = drv.call("c07_lw", [N.sx(model), order, zev, size, incl, o.draws()])
@@ -862,8 +1074,8 @@ def run_lw(case, drv, N, model, key, tags):
         return ok(nontrivial=False, key=key, tags=tags + ["float-sort-knife-edge"])
     if d is None:
         d = cmp_frames(N.frame(df), model_frame(cols, rows))
-    if d is None and len(df) != size:
-        d = "rows: %d, requested %d" % (len(df), size)
+    if d is None and (len(df) != size or not frame_index_ok(df, size)):
+        d = "rows: %d, requested %d, index %r" % (len(df), size, list(df.index)[:10])
     if d is None:
         w = [float(x) for x in df["_weight"].tolist()]
         if len(w) != len(mw) or not all(close(a, common.frac(b)) for a, b in zip(w, mw)):
@@ -894,7 +1106,11 @@ def run_tiny(case, drv, N, model, key, tags):
     if not r["ok"]:
         return r
     asgs = list(itertools.product(*[range(c) for c in N.card]))
-    df = pd.DataFrame({N.node[v]: [N.names[v][t[v]] for t in asgs] for v in range(N.n)})
+    lrng = random.Random(case["oseed"] + 7)
+    corder = list(range(N.n))
+    lrng.shuffle(corder)          # the column order of the data frame is the `ordering`; the index is never data
+    df = pd.DataFrame({N.node[v]: [N.names[v][t[v]] for t in asgs] for v in corder},
+                      index=[3 * i + 2 for i in range(len(asgs))])
     with np.errstate(divide="ignore"):
         lp = BayesianModelProbability(model).log_probability(df)
     for t, got in zip(asgs, [float(x) for x in lp]):
@@ -916,6 +1132,236 @@ def run_tiny(case, drv, N, model, key, tags):
                                       "impl": got, "exact": exp, "case": case}, key=key, tags=tags)
     r["tags"] = list(r["tags"]) + ["logprob-rows=%d" % len(asgs)]
     return r
+
+
+def sub_case(kind, rng, net, **kw):
+    c = {"kind": kind, "net": net, "oseed": rng.randint(0, 10**9), "size": rng.choice([1, 3, 6, 10]),
+         "incl": rng.random() < 0.5, "partial": rng.random() < 0.3, "nev": rng.choice([0, 1, 2]),
+         "ndo": rng.choice([0, 1]), "nvirt": rng.choice([0, 1]), "nvint": rng.choice([0, 1])}
+    c.update(kw)
+    return c
+
+
+def run_ops(ops, drv, N, model, key, tags, sampler, phase):
+    """several calls on the SAME sampler / model object, each compared with the (stateless) model; -> (bad | None, n)"""
+    n = 0
+    for k, op in enumerate(ops):
+        t = []
+        if op["kind"] == "forward":
+            r = run_forward(op, drv, N, model, key, t, sampler=sampler)
+        elif op["kind"] == "lw":
+            r = run_lw(op, drv, N, model, key, t, sampler=sampler)
+        elif op["kind"] == "reject":
+            r = run_reject(op, drv, N, model, key, t, sampler=sampler)
+        else:
+            r = run_simulate(op, drv, N, model, key, t)
+        if not r["ok"]:
+            r["detail"] = {"session": "%s step %d (%s)" % (phase, k, op["kind"]), "inner": r["detail"].get("what"),
+                           "op": {a: b for a, b in op.items() if a != "net"}}
+            r["tags"] = list(tags) + ["failed-step=%s" % op["kind"]]
+            return r, n
+        n += 1
+    return None, n
+
+
+def random_cpd(rng, N, v, pars):
+    """a fresh TabularCPD for node v of Net N with the given parents (ids) and random dyadic columns"""
+    from pgmpy.factors.discrete import TabularCPD
+
+    ncol = 1
+    for u in pars:
+        ncol *= N.card[u]
+    cols = [common.rand_column(rng, N.card[v], zeros=True) for _ in range(ncol)]
+    table = [[float(cols[j][s_]) for j in range(ncol)] for s_ in range(N.card[v])]
+    sn = {N.node[v]: list(N.names[v])}
+    for u in pars:
+        sn[N.node[u]] = list(N.names[u])
+    if pars:
+        return TabularCPD(N.node[v], N.card[v], table, evidence=[N.node[u] for u in pars],
+                          evidence_card=[N.card[u] for u in pars], state_names=sn)
+    return TabularCPD(N.node[v], N.card[v], table, state_names=sn)
+
+
+def run_session(case, drv, N, model, key, tags):
+    """class A: several sampler calls on one BayesianModelSampling object, then an edit of the model through one of its
+    mutators, then a NEW sampler and simulate() on the SAME model object; the oracle is the Coq model on the network's
+    CURRENT state (read back from the object = what a freshly built object would hold)"""
+    from pgmpy.sampling import BayesianModelSampling
+    from pgmpy.factors.discrete import TabularCPD
+
+    rng = random.Random(case["oseed"])
+    net = case["net"]
+    s1 = BayesianModelSampling(model)
+    ops = [sub_case("forward", rng, net), sub_case("lw", rng, net), sub_case("forward", rng, net),
+           sub_case("reject", rng, net, partial=False), sub_case("lw", rng, net), sub_case("simulate", rng, net)]
+    r, n1 = run_ops(ops, drv, N, model, key, tags, s1, "before-edit")
+    if r is not None:
+        return r
+    edit = case["edit"]
+    nonlat = [v for v in range(N.n) if v not in N.lat]
+    if edit == "replace_cpd":
+        v = rng.randrange(N.n)
+        model.add_cpds(random_cpd(rng, N, v, N.pars[v]))
+    elif edit == "remove_edge" and N.net["edges"]:
+        u, v = rng.choice(N.net["edges"])
+        model.remove_edge(N.node[u], N.node[v])
+        model.add_cpds(random_cpd(rng, N, v, [w for w in N.pars[v] if w != u]))
+    elif edit == "remove_node" and N.n >= 2 and nonlat:
+        model.remove_node(N.node[rng.choice(nonlat)])
+    elif edit == "do_inplace":
+        model.do([N.node[rng.randrange(N.n)]], inplace=True)
+    elif edit == "add_node":
+        p_ = rng.randrange(N.n)
+        new = "NEW"
+        model.add_node(new)
+        model.add_edge(N.node[p_], new)
+        ncol = N.card[p_]
+        cols = [common.rand_column(rng, 2, zeros=True) for _ in range(ncol)]
+        model.add_cpds(TabularCPD(new, 2, [[float(cols[j][s_]) for j in range(ncol)] for s_ in range(2)],
+                                  evidence=[N.node[p_]], evidence_card=[ncol],
+                                  state_names={new: ["n0", "n1"], N.node[p_]: list(N.names[p_])}))
+    else:
+        edit = "none"
+    try:
+        model.check_model()
+    except ValueError:
+        return ok(nontrivial=False, key=key, tags=tags + ["edit=%s" % edit, "edited-model-invalid"])
+    net2 = net_from_model(model)
+    N2 = Net(net2)
+    s2 = BayesianModelSampling(model)
+    ops2 = [sub_case("forward", rng, net2), sub_case("lw", rng, net2), sub_case("simulate", rng, net2),
+            sub_case("reject", rng, net2, partial=False)]
+    r, n2 = run_ops(ops2, drv, N2, model, key, tags, s2, "after-" + edit)
+    if r is not None:
+        return r
+    return ok(nontrivial=bool(N.net["edges"]), key=key, tags=tags + ["edit=%s" % edit, "session-calls=%d" % (n1 + n2)])
+
+
+def model_state(model):
+    import numpy as np
+
+    return (sorted(map(repr, model.nodes())), sorted(map(repr, model.edges())),
+            [(repr(c.variable), [repr(x) for x in c.variables], np.array(c.get_values(), dtype=float).tolist())
+             for c in model.cpds], sorted(map(repr, model.latents)))
+
+
+def run_badcall(case, drv, N, model, key, tags):
+    """class K / F: calls that must be rejected are rejected (also when only a LATER argument is invalid), leave the model
+    as it was, and a following valid call behaves like on a fresh object"""
+    from pgmpy.factors.discrete import TabularCPD, State
+    from pgmpy.models import BayesianNetwork
+    from pgmpy.sampling import BayesianModelSampling
+
+    rng = random.Random(case["oseed"])
+    before = model_state(model)
+    vs = list(range(N.n))
+    rng.shuffle(vs)
+    a = vs[0]
+    b_ = vs[1 % len(vs)]
+    good = lambda v: N.names[v][rng.randrange(N.card[v])]
+    bad_state = "no-such-state"
+    calls = [("evidence-bad-state", dict(evidence={N.node[a]: bad_state})),
+             ("do-bad-state", dict(do={N.node[a]: bad_state})),
+             ("do-and-evidence-same-var", dict(do={N.node[a]: good(a)}, evidence={N.node[a]: good(a)})),
+             ("virtual-evidence-wrong-card", dict(virtual_evidence=[TabularCPD(N.node[a], N.card[a] + 1,
+                                                                          [[0.5]] * (N.card[a] + 1))])),
+             ("virtual-evidence-unknown-var", dict(virtual_evidence=[TabularCPD("no-such-node", 2, [[0.5], [0.5]])]))]
+    if a != b_:
+        calls.append(("later-argument-invalid", dict(do={N.node[a]: good(a)}, evidence={N.node[b_]: bad_state})))
+    for name, kw in calls:
+        try:
+            model.simulate(n_samples=2, show_progress=False, seed=1, **kw)
+        except ValueError:
+            continue
+        return bad("accepted-invalid-call", {"what": "simulate accepted " + name, "case": case}, key=key, tags=tags)
+    # likelihood weighting with an unknown evidence state: KeyError <-> model error 6
+    s = BayesianModelSampling(model)
+    order = [N.id[x] for x in s.topological_order]
+    try:
+        s.likelihood_weighted_sample(evidence=[State(N.node[a], bad_state)], size=2, show_progress=False)
+        return bad("accepted-invalid-call", {"what": "likelihood_weighted_sample accepted an unknown state",
+                                             "case": case}, key=key, tags=tags)
+    except KeyError:
+        pass
+    st, r = drv.call_e("c07_lw", [N.sx(model), order, [[a, -999999]], 2, True, []])
+    if (st, r) != ("err", 6):
+        return bad("impl!=model", {"what": "model accepts the unknown evidence state: %r" % ((st, r),), "case": case},
+                   key=key, tags=tags)
+    # the same set of parent state names in another order in the child's CPD must be rejected by simulate()
+    cand = [(v, u) for v in range(N.n) for u in N.pars[v] if N.card[u] >= 2]
+    if cand:
+        v, u = rng.choice(cand)
+        m2 = N.build()
+        swapped = list(N.names[u])
+        swapped[0], swapped[1] = swapped[1], swapped[0]
+        N3 = Net(N.net)
+        N3.names = [list(l) for l in N.names]
+        c_new = random_cpd(rng, N, v, N.pars[v])
+        sn = {N.node[v]: list(N.names[v])}
+        for w in N.pars[v]:
+            sn[N.node[w]] = swapped if w == u else list(N.names[w])
+        c_bad = TabularCPD(N.node[v], N.card[v], c_new.get_values(), evidence=[N.node[w] for w in N.pars[v]],
+                           evidence_card=[N.card[w] for w in N.pars[v]], state_names=sn)
+        m2.add_cpds(c_bad)
+        try:
+            m2.simulate(n_samples=2, show_progress=False, seed=1)
+            return bad("accepted-invalid-call", {"what": "simulate accepted a child CPD listing a parent's state names "
+                                                         "in another order", "case": case}, key=key, tags=tags)
+        except ValueError:
+            tags.append("misordered-parent-names=rejected")
+    if model_state(model) != before:
+        return bad("mutated-argument", {"what": "a rejected call changed the model", "case": case}, key=key, tags=tags)
+    r = run_simulate(sub_case("simulate", rng, case["net"]), drv, N, model, key, [])
+    if not r["ok"]:
+        r["detail"] = {"what": "valid simulate() after rejected calls", "inner": r["detail"].get("what")}
+        r["tags"] = tags
+        return r
+    return ok(nontrivial=True, key=key, tags=tags + ["rejected-calls=%d" % (len(calls) + 1)])
+
+
+def run_big(case, drv, N, model, key, tags):
+    """class G: 9 variables in one CPD (8 parents), integer node names up to 11"""
+    rng = random.Random(case["oseed"])
+    for op in [sub_case("forward", rng, case["net"], size=12, partial=False),
+               sub_case("lw", rng, case["net"], size=8, nev=2),
+               sub_case("reject", rng, case["net"], size=3, nev=1, partial=False),
+               sub_case("simulate", rng, case["net"], size=3, partial=False)]:
+        t = []
+        fn = {"forward": run_forward, "lw": run_lw, "reject": run_reject, "simulate": run_simulate}[op["kind"]]
+        r = fn(op, drv, N, model, key, t)
+        if not r["ok"]:
+            r["tags"] = tags + ["failed-step=" + op["kind"]]
+            return r
+    return ok(nontrivial=True, key=key, tags=tags + ["vars-in-one-factor=9"])
+
+
+def run_gibbs_seed(case):
+    """a fixed seed reproduces GibbsSampling.sample also when the start state is drawn at random (start_state=None):
+    two fresh samplers, same seed, different state of the global RNG before the call"""
+    import numpy as np
+    from pgmpy.models import BayesianNetwork
+    from pgmpy.factors.discrete import TabularCPD
+    from pgmpy.sampling import GibbsSampling
+
+    def build():
+        m = BayesianNetwork([("A", "B")])
+        m.add_cpds(TabularCPD("A", 2, [[0.5], [0.5]]),
+                   TabularCPD("B", 2, [[0.75, 0.25], [0.25, 0.75]], evidence=["A"], evidence_card=[2]))
+        return m
+
+    key = common.canon_key(case)
+    tags = ["kind=gibbs_seed"]
+    frames = []
+    for pre in range(8):
+        np.random.seed(1000 + pre)
+        frames.append(GibbsSampling(build()).sample(size=4, seed=5))
+    if not all(f.equals(frames[0]) for f in frames):
+        return bad("structural", {"what": "GibbsSampling(model).sample(size=4, seed=5) on fresh samplers returns different "
+                                          "frames depending on the global RNG state before the call (the random start "
+                                          "state is drawn before the seed is set)",
+                                  "first_rows": [f.iloc[0].tolist() for f in frames], "case": case},
+                   finding="gibbs-sample-seed-set-after-random-start", key=key, tags=tags)
+    return ok(nontrivial=True, key=key, tags=tags)
 
 
 def full_conditional(factors, cards, nvars, v, others, tup):
@@ -954,11 +1400,11 @@ def cmp_kernel(tm, mk, ids, spec):
                     return ("kernel %r %r: model nan, impl %r" % (name, tup, got), None, cnt)
                 continue
             exp = [common.frac(x) for x in w[0]]
-            if len(got) != len(exp) or not all(common.approx(a, b) for a, b in zip(got, exp)):
+            if len(got) != len(exp) or not all(close(a, b, 1e-12) for a, b in zip(got, exp)):
                 return ("kernel %r %r: impl %r model %r" % (name, tup, got, [str(x) for x in exp]), None, cnt)
             cnt += len(exp)
             sp = spec(v, tup)
-            if sp is not None and not all(common.approx(a, b) for a, b in zip(got, sp)):
+            if sp is not None and not all(close(a, b, 1e-12) for a, b in zip(got, sp)):
                 return (None, {"variable": repr(name), "others": list(tup), "kernel": got,
                                "full_conditional": [str(x) for x in sp]}, cnt)
     return (None, None, cnt)
@@ -1018,6 +1464,39 @@ def run_gibbs(case, drv, N, model, key, tags):
             if d is not None:
                 return bad("impl!=model", {"what": d, "case": case}, key=key, tags=tags)
             tags += ["chain=%d" % size]
+            # (A) a second call on the SAME object without start_state continues from the last state;
+            # (J) generate_sample: the generator variant, one state list per sweep
+            last = rows[-1]
+            size2 = 1 + size % 3
+            with oracle(case["oseed"] + 1) as o2:
+                df2 = g2.sample(size=size2, include_latents=True)
+            st, r = drv.call_e("c07_gibbs", [N.sx(model), vars_, [], size2, last, o2.draws()])
+            d = None
+            if st == "err":
+                d = "model error %s in the continued chain" % r
+            else:
+                rows2, mcalls2, _ = r
+                d = cmp_calls(o2, mcalls2)
+                got2 = [[int(df2[str(N.node[v])].iloc[i]) for v in vars_] for i in range(len(df2))]
+                if d is None and got2 != rows2:
+                    d = "continued chain impl %r model %r (continues from %r)" % (got2[:10], rows2[:10], last)
+            if d is None:
+                g3 = GibbsSampling(model)
+                with oracle(case["oseed"] + 2) as o3:
+                    gen = list(g3.generate_sample(start_state=[State(N.node[v], s_) for v, s_ in zip(vars_, start)],
+                                                  size=size, include_latents=True))
+                st, r = drv.call_e("c07_gibbs", [N.sx(model), vars_, [], size + 1, start, o3.draws()])
+                if st == "err":
+                    d = "model error %s for generate_sample" % r
+                else:
+                    rows3, mcalls3, _ = r
+                    d = cmp_calls(o3, mcalls3)
+                    got3 = [[int(dict((str(x.var), x.state) for x in row)[str(N.node[v])]) for v in vars_] for row in gen]
+                    if d is None and got3 != rows3[1:]:
+                        d = "generate_sample impl %r model %r" % (got3[:10], rows3[1:11])
+            if d is not None:
+                return bad("impl!=model", {"what": d, "case": case}, key=key, tags=tags)
+            tags += ["continued+generator"]
         else:
             tags += ["chain-error=" + err]
     if sd is not None:
@@ -1060,7 +1539,9 @@ def run_gibbs_mn(case, drv):
     fs, fsx, fcall = [], [], []
     for (i, j) in edges:
         sc = [i, j] if rng.random() < 0.5 else [j, i]
-        vals = [Fraction(rng.choice([0, 1, 1, 2, 3, 5, 8]), rng.choice([1, 2, 4])) for _ in range(card[sc[0]] * card[sc[1]])]
+        scale = float(10.0 ** rng.choice([0, 0, 0, -90, -30, 30, 90, -12]))       # magnitudes (class H)
+        vals = [Fraction(float(Fraction(rng.choice([0, 1, 1, 2, 3, 5, 8]), rng.choice([1, 2, 4]))) * scale)
+                for _ in range(card[sc[0]] * card[sc[1]])]
         kw = {} if style == "none" else {"state_names": {names[x]: snames[x] for x in sc}}
         fs.append(DiscreteFactor([names[x] for x in sc], [card[x] for x in sc], [float(x) for x in vals], **kw))
         fsx.append([sc, vals])
@@ -1092,6 +1573,7 @@ def run_gibbs_mn(case, drv):
 
 
 def run_simulate(case, drv, N, model, key, tags):
+    import numpy as np
     import pgmpy.sampling.Sampling as S
     from pgmpy.factors.discrete import TabularCPD
 
@@ -1107,16 +1589,29 @@ def run_simulate(case, drv, N, model, key, tags):
     evn = [[v, asg[v]] for v in rest[:nev]]
     rest = rest[nev:]
     nvirt = min(case["nvirt"], len(rest))
-    virt = []
-    for i, v in enumerate(rest[:nvirt]):
+    nvint = min(case.get("nvint", 0), len(rest) - nvirt)
+
+    def soft(v):
         q = [Fraction(rng.randint(0, 8), 8) for _ in range(N.card[v])]
-        if asg[v] < len(q) and q[asg[v]] == 0:
+        if q[asg[v]] == 0:
             q[asg[v]] = Fraction(1, 2)
-        virt.append([N.n + i, v, q])
+        return q
+
+    virt = [[N.n + i, v, soft(v)] for i, v in enumerate(rest[:nvirt])]                       # virtual evidence
+    vint = [[N.n + nvirt + i, v, soft(v)] for i, v in enumerate(rest[nvirt:nvirt + nvint])]   # virtual intervention
     psize = size
     partial = gen_partial(N, rng, psize, avoid=[v for v, _ in dos + evn]) if case.get("partial") else []
     tags += ["size=%d" % size, "incl=%s" % incl, "do=%d" % len(dos), "ev=%d" % len(evn), "virt=%d" % len(virt),
-             "partial=%d" % len(partial)]
+             "vint=%d" % len(vint), "partial=%d" % len(partial)]
+    # the fresh names simulate() gives the auxiliary children (a6b57c2): "__" + str(var), "_"-prefixed while taken
+    taken = set(N.node)
+    extra = {}
+    for nv, v, _ in virt + vint:
+        nm = "__" + str(N.node[v])
+        while nm in taken:
+            nm = "_" + nm
+        taken.add(nm)
+        extra[nm] = nv
     # capture the sampler simulate() builds
     insts, sizes = [], []
     orig_init = S.BayesianModelSampling.__init__
@@ -1130,15 +1625,21 @@ def run_simulate(case, drv, N, model, key, tags):
         sizes.append(int(kw.get("size", a[0] if a else 1)))
         return orig_fwd(self, *a, **kw)
 
+    def soft_cpd(v, q):
+        return TabularCPD(N.node[v], N.card[v], [[float(x)] for x in q], state_names={N.node[v]: list(N.names[v])})
+
+    vcpds = [soft_cpd(v, q) for _, v, q in virt]
+    icpds = [soft_cpd(v, q) for _, v, q in vint]
+    a_do = {N.node[v]: N.names[v][k] for v, k in dos} or None
+    a_ev = {N.node[v]: N.names[v][k] for v, k in evn} or None
+    pdf = partial_df(N, partial, rng) if partial else None
+    snap = (dict(a_do or {}), dict(a_ev or {}), list(vcpds), list(icpds),
+            [np.array(c.get_values(), dtype=float).copy() for c in vcpds + icpds], snapshot_df(pdf),
+            sorted(map(repr, model.nodes())), sorted(map(repr, model.edges())), len(model.cpds))
+    kw = dict(n_samples=size, include_latents=incl, show_progress=False, do=a_do, evidence=a_ev,
+              virtual_evidence=vcpds or None, virtual_intervention=icpds or None, partial_samples=pdf)
     S.BayesianModelSampling.__init__ = rec_init
     S.BayesianModelSampling.forward_sample = rec_fwd
-    vcpds = [TabularCPD(N.node[v], N.card[v], [[float(x)] for x in q], state_names={N.node[v]: list(N.names[v])})
-             for _, v, q in virt]
-    kw = dict(n_samples=size, include_latents=incl, show_progress=False,
-              do={N.node[v]: N.names[v][k] for v, k in dos} or None,
-              evidence={N.node[v]: N.names[v][k] for v, k in evn} or None,
-              virtual_evidence=vcpds or None,
-              partial_samples=partial_df(N, partial) if partial else None)
     try:
         with oracle(case["oseed"]) as o:
             df = model.simulate(**kw)
@@ -1147,15 +1648,28 @@ def run_simulate(case, drv, N, model, key, tags):
     finally:
         S.BayesianModelSampling.__init__ = orig_init
         S.BayesianModelSampling.forward_sample = orig_fwd
+    after = (dict(a_do or {}), dict(a_ev or {}), list(vcpds), list(icpds),
+             [np.array(c.get_values(), dtype=float) for c in vcpds + icpds], None,
+             sorted(map(repr, model.nodes())), sorted(map(repr, model.edges())), len(model.cpds))
+    same = (snap[0] == after[0] and snap[1] == after[1] and all(x is y for x, y in zip(snap[2] + snap[3], after[2] + after[3]))
+            and len(snap[2]) == len(after[2]) and len(snap[3]) == len(after[3])
+            and all(np.array_equal(x, y) for x, y in zip(snap[4], after[4])) and df_unchanged(pdf, snap[5])
+            and snap[6:] == after[6:])
+    if not same:
+        return bad("mutated-argument", {"what": "simulate changed one of its arguments or the model itself",
+                                        "case": case}, key=key, tags=tags)
     inst = insts[-1]
-    extra = {"__" + N.node[v]: nv for nv, v, _ in virt}
     ids = dict(N.id)
     ids.update(extra)
+    unknown = [x for x in inst.model.nodes() if x not in ids]
+    if unknown:
+        return bad("impl!=model", {"what": "unexpected auxiliary node names %r (expected %r)" % (unknown, sorted(extra)),
+                                   "case": case}, key=key, tags=tags)
     nodes2 = [ids[x] for x in inst.model.nodes()]
     order = [ids[x] for x in inst.topological_order]
     zdo = [[v, N.znames[v][k]] for v, k in dos]
     zev = [[v, N.znames[v][k]] for v, k in evn]
-    has_ev = bool(dos or evn or virt)
+    has_ev = bool(dos or evn or virt or vint)
     fuel = len(sizes) + 2
     if not has_ev and partial:
         # forward_sample path keeps partial_samples: the forward entry of the model (on the unchanged network)
@@ -1165,8 +1679,9 @@ def run_simulate(case, drv, N, model, key, tags):
         idx = [cols_all.index(c) for c in keep]
         cols, rows, msizes = keep, [[r_[i] for i in idx] for r_ in rows_all], sizes
     else:
-        st, r = drv.call_e("c07_simulate", [N.sx(model), nodes2, order, zdo, zev, virt, size, incl,
-                                            partial, [psize] if partial else [], fuel, o.draws()])
+        st, r = drv.call_e("c07_simulate", [N.sx(model), nodes2, order, zdo, zev, virt + vint, size, incl,
+                                            partial, [psize] if partial else [], fuel, o.draws(),
+                                            [v for _, v, _ in vint]])
         if st == "err":
             return bad("impl!=model", {"what": "model error %s" % r, "impl_batch_sizes": sizes, "case": case},
                        key=key, tags=tags)
@@ -1182,8 +1697,8 @@ def run_simulate(case, drv, N, model, key, tags):
         return ok(nontrivial=False, key=key, tags=tags + ["float-sort-knife-edge"])
     if d is None:
         d = cmp_frames(N.frame(df, extra), model_frame(cols, rows))
-    if d is None and len(df) != size:
-        d = "rows: %d, requested %d" % (len(df), size)
+    if d is None and (len(df) != size or not frame_index_ok(df, size)):
+        d = "rows: %d, requested %d, index %r" % (len(df), size, list(df.index)[:10])
     if d is None:
         f = N.frame(df, extra)
         for v, z in zdo + zev:
@@ -1266,8 +1781,22 @@ def run_struct_(case, N, model, key, tags):
     fails, prop_fail = [], []
     differ = None
     # forward
+    import numpy as np
+
     a = s.forward_sample(size=size, seed=seed, show_progress=False, include_latents=True)
     b = s.forward_sample(size=size, seed=seed, show_progress=False, include_latents=True)
+    # seed=s (also s = 0) means np.random.seed(s): deterministic check that the argument is honoured
+    np.random.seed(seed)
+    a3 = s.forward_sample(size=size, show_progress=False, include_latents=True)
+    if not a.equals(a3):
+        fails.append("forward_sample(seed=%d) differs from np.random.seed(%d); forward_sample()" % (seed, seed))
+    # result independence (class C): scribbling over a returned frame does not influence later calls
+    keep = a.copy(deep=True)
+    a[a.columns[0]] = "scribble"
+    a4 = s.forward_sample(size=size, seed=seed, show_progress=False, include_latents=True)
+    if not a4.equals(keep) or a4 is a:
+        fails.append("forward_sample: a later call is influenced by mutating an earlier result")
+    a = keep
     c = s.forward_sample(size=size, seed=seed + 1, show_progress=False, include_latents=False)
     if not a.equals(b):
         fails.append("forward_sample: same seed, different frames")
@@ -1293,6 +1822,10 @@ def run_struct_(case, N, model, key, tags):
             r2 = s.rejection_sample(evidence=ev, size=min(size, 40), seed=seed, show_progress=False, include_latents=True)
             if not r1.equals(r2):
                 fails.append("rejection_sample: same seed, different frames")
+            np.random.seed(seed)
+            r3 = s.rejection_sample(evidence=ev, size=min(size, 40), show_progress=False, include_latents=True)
+            if not r1.equals(r3):
+                fails.append("rejection_sample(seed=%d) differs from np.random.seed(%d) + unseeded call" % (seed, seed))
             if len(r1) != min(size, 40):
                 fails.append("rejection_sample: %d rows for size %d" % (len(r1), min(size, 40)))
             rows, e = rows_numbers(N, r1)
@@ -1307,6 +1840,10 @@ def run_struct_(case, N, model, key, tags):
             tags.append("rejection=run")
     w1 = s.likelihood_weighted_sample(evidence=ev, size=size, seed=seed, show_progress=False, include_latents=True)
     w2 = s.likelihood_weighted_sample(evidence=ev, size=size, seed=seed, show_progress=False, include_latents=True)
+    np.random.seed(seed)
+    w4 = s.likelihood_weighted_sample(evidence=ev, size=size, show_progress=False, include_latents=True)
+    if not w1.equals(w4):
+        fails.append("likelihood_weighted_sample(seed=%d) differs from np.random.seed(%d) + unseeded call" % (seed, seed))
     w3 = s.likelihood_weighted_sample(evidence=ev, size=size, seed=seed, show_progress=False)
     if not w1.equals(w2):
         fails.append("likelihood_weighted_sample: same seed, different frames")
